@@ -17,6 +17,11 @@ CHECKS = {
         note="Reals for floats (ulp rounding outside); generic namespace branch only; generator stub returns arbitrary draws in (0,1); float constants equal to math.log(k) are read as ln k.",
         ref="6/C02",
     ),
+    "C03": dict(
+        text="Partial. The real ZukoFlow / FlowJax log_prob, sample_and_log_prob, sample, forward and inverse (code objects re-bound so that tensor construction is the identity on symbolic arrays) over the real FlowTransform built by the real Aspire.init_flow wiring (logit / probit / off, affine as wired), with an abstract network (base density uninterpreted, bijection with an exact inverse): log_prob(x) = B(T x) + log|det T'(x)| with the Jacobian obtained by symbolic differentiation of the executed forward map; the log-density attached to drawn samples equals log_prob at those samples; draws lie strictly inside the declared bounds; forward/inverse are mutual inverses with opposite log-Jacobians, for all bounds, all fitted affine states and all points outside the clipping margin.",
+        note="The trained network is abstract (a normalised third-party flow is trusted); quadrature of the density, training, float32 and save/load of weights are outside; d=1 (quick) / 2 (thorough), batch 2; draws inside the eps=1e-6 clipping margin are outside.",
+        ref="6/C03",
+    ),
     "C04": dict(
         text="Round trip, forward log-Jacobian (against a symbolic differentiator applied to the code's own forward map), inverse-equals-minus-forward, periodic wrapping, fit==forward and the clipping margin are SMT obligations over all bounds lower<upper, all interior points, all fitted affine states, for every transform class and all 11 non-trivial composite configurations.",
         note="Reals for floats; erf/erfinv axiomatised (monotone, odd, inverse pair, derivative); x % w encoded with |k|<=4 periods; infinite bounds and torch/jax outside; d<=2 batch 2 quick, d<=3 batch 3 thorough.",
